@@ -113,6 +113,10 @@ pub struct Case {
     yield_seed: u64,
     /// force two writers of the shared spill pool to hold distinct files at the same time (hook rendezvous at sp_w_p3)
     force_two_files: bool,
+    /// the injected input error is delivered only after every `poll once, then drop` output (-3) is gone
+    err_after_drops: bool,
+    /// scenario family (for the path counters)
+    family: String,
     origin: String,
 }
 
@@ -132,7 +136,7 @@ fn case_json(c: &Case) -> Value {
         .collect();
     json!({"scheme": c.scheme, "nout": c.nout, "keys": c.keys, "splits": c.splits, "desc": c.desc, "nulls_first": c.nulls_first,
            "preserve_order": c.preserve_order, "unbounded": c.unbounded, "inputs": inputs, "batch_size": c.batch_size, "mem": c.mem,
-           "max_spill_file": c.max_spill_file, "drops": c.drops, "threads": c.threads, "yield_seed": c.yield_seed, "force_two_files": c.force_two_files, "origin": c.origin})
+           "max_spill_file": c.max_spill_file, "drops": c.drops, "threads": c.threads, "yield_seed": c.yield_seed, "force_two_files": c.force_two_files, "err_after_drops": c.err_after_drops, "family": c.family, "origin": c.origin})
 }
 
 fn case_parse(v: &Value) -> Case {
@@ -160,6 +164,8 @@ fn case_parse(v: &Value) -> Case {
         threads: v["threads"].as_u64().unwrap_or(2) as usize,
         yield_seed: v["yield_seed"].as_u64().unwrap_or(0),
         force_two_files: v["force_two_files"].as_bool().unwrap_or(false),
+        err_after_drops: v["err_after_drops"].as_bool().unwrap_or(false),
+        family: v["family"].as_str().unwrap_or("random").to_string(),
         origin: v["origin"].as_str().unwrap_or("").to_string(),
     }
 }
@@ -194,9 +200,13 @@ fn key_i64(r: &Row, k: &str) -> Option<i64> {
         "k3" => r.k3,
         "s" => Some(r.s),
         "id" => Some(r.id),
+        "k2" => r.k2.as_ref().map(|x| STRS.iter().position(|y| y == x).expect("string outside the domain") as i64),
         _ => None,
     }
 }
+
+/// the Utf8 key domain in its byte-wise (arrow) order; a string key is represented by its rank
+const STRS: [&str; 5] = ["", "a", "ab", "b", "c"];
 
 /// range rule: the partition is the number of split points that are <= the row key
 fn range_part(c: &Case, r: &Row) -> usize {
@@ -232,7 +242,7 @@ fn partitioning(c: &Case) -> Result<Partitioning> {
                 .splits
                 .iter()
                 .map(|sp| {
-                    SplitPoint::new(sp.iter().enumerate().map(|(i, v)| if c.keys[i] == "k1" { ScalarValue::Int32(v.map(|x| x as i32)) } else { ScalarValue::Int64(*v) }).collect())
+                    SplitPoint::new(sp.iter().enumerate().map(|(i, v)| match c.keys[i].as_str() { "k1" => ScalarValue::Int32(v.map(|x| x as i32)), "k2" => ScalarValue::Utf8(v.map(|x| STRS[x as usize].to_string())), _ => ScalarValue::Int64(*v) }).collect())
                 })
                 .collect();
             Partitioning::Range(RangePartitioning::try_new(LexOrdering::new(ord).unwrap(), splits)?)
@@ -252,10 +262,13 @@ struct ScriptExec {
     sleeps: bool,
     log: Arc<parking_lot::Mutex<Vec<Value>>>,
     progress: Arc<AtomicU64>,
+    /// (outputs dropped so far, drops the error waits for)
+    drops_done: Arc<AtomicU64>,
+    gate_drops: u64,
 }
 
 impl ScriptExec {
-    fn new(c: &Case, log: Arc<parking_lot::Mutex<Vec<Value>>>, progress: Arc<AtomicU64>) -> Self {
+    fn new(c: &Case, log: Arc<parking_lot::Mutex<Vec<Value>>>, progress: Arc<AtomicU64>, drops_done: Arc<AtomicU64>) -> Self {
         let sch = schema();
         let eq = if c.preserve_order {
             EquivalenceProperties::new_with_orderings(Arc::clone(&sch), [[PhysicalSortExpr::new(col("s", &sch).unwrap(), SortOptions { descending: false, nulls_first: false })]])
@@ -264,7 +277,8 @@ impl ScriptExec {
         };
         let bounded = if c.unbounded { Boundedness::Unbounded { requires_infinite_memory: false } } else { Boundedness::Bounded };
         let props = PlanProperties::new(eq, Partitioning::UnknownPartitioning(c.inputs.len()), EmissionType::Incremental, bounded);
-        ScriptExec { parts: c.inputs.clone(), props: Arc::new(props), yield_seed: c.yield_seed, sleeps: c.threads > 1, log, progress }
+        ScriptExec { parts: c.inputs.clone(), props: Arc::new(props), yield_seed: c.yield_seed, sleeps: c.threads > 1, log, progress, drops_done,
+                     gate_drops: if c.err_after_drops { c.drops.iter().filter(|d| **d == -3).count() as u64 } else { 0 } }
     }
 }
 
@@ -304,6 +318,8 @@ impl ExecutionPlan for ScriptExec {
             sleeps: self.sleeps,
             log: Arc::clone(&self.log),
             progress: Arc::clone(&self.progress),
+            drops_done: Arc::clone(&self.drops_done),
+            gate_drops: self.gate_drops,
         }))
     }
 }
@@ -317,6 +333,8 @@ struct ScriptStream {
     sleeps: bool,
     log: Arc<parking_lot::Mutex<Vec<Value>>>,
     progress: Arc<AtomicU64>,
+    drops_done: Arc<AtomicU64>,
+    gate_drops: u64,
 }
 
 fn xorshift(x: &mut u64) -> u64 {
@@ -347,13 +365,28 @@ impl Stream for ScriptStream {
             return Poll::Ready(None);
         }
         let it = self.items[self.pos].clone();
+        if matches!(it, Item::Err) && self.drops_done.load(AO::SeqCst) < self.gate_drops {
+            // the failure is scheduled after the planned early drops: come back later
+            std::thread::yield_now();
+            cx.waker().wake_by_ref();
+            return Poll::Pending;
+        }
         self.pos += 1;
         self.progress.fetch_add(1, AO::Relaxed);
         match it {
             Item::Batch(rows) => {
                 let (i, pos) = (self.input, self.pos);
                 self.log.lock().push(json!({"e": "in", "i": i + 1, "b": pos, "ids": rows.iter().map(|r| r.id).collect::<Vec<_>>()}));
-                Poll::Ready(Some(Ok(to_batch(&rows))))
+                // every other batch is handed over as a slice of a longer batch (array offsets != 0)
+                let b = if pos % 2 == 0 && !rows.is_empty() {
+                    let mut padded = vec![rows[0].clone()];
+                    padded.extend(rows.iter().cloned());
+                    padded.push(rows[rows.len() - 1].clone());
+                    to_batch(&padded).slice(1, rows.len())
+                } else {
+                    to_batch(&rows)
+                };
+                Poll::Ready(Some(Ok(b)))
             }
             Item::Err => {
                 let i = self.input;
@@ -441,7 +474,8 @@ pub fn run_case_idle(c: &Case, idle_ticks: u32) -> Outcome {
     }
     let ctx = Arc::new(TaskContext::default().with_session_config(cfg).with_runtime(Arc::clone(&env)));
     let progress = Arc::new(AtomicU64::new(0));
-    let input: Arc<dyn ExecutionPlan> = Arc::new(ScriptExec::new(c, Arc::clone(&log), Arc::clone(&progress)));
+    let drops_done = Arc::new(AtomicU64::new(0));
+    let input: Arc<dyn ExecutionPlan> = Arc::new(ScriptExec::new(c, Arc::clone(&log), Arc::clone(&progress), Arc::clone(&drops_done)));
     let part = match partitioning(c) {
         Ok(p) => p,
         Err(e) => {
@@ -499,6 +533,7 @@ pub fn run_case_idle(c: &Case, idle_ticks: u32) -> Outcome {
             let results = Arc::clone(&results);
             let log = Arc::clone(&log);
             let progress = Arc::clone(&progress);
+            let drops_done = Arc::clone(&drops_done);
             let sleeps = c.threads > 1;
             let mut rng = fuzz.wrapping_mul(31).wrapping_add(p as u64 + 7) | 1;
             handles.push(tokio::spawn(async move {
@@ -508,6 +543,13 @@ pub fn run_case_idle(c: &Case, idle_ticks: u32) -> Outcome {
                 match exec.execute(p, ctx) {
                     Err(e) => status = format!("err:{e}"),
                     Ok(mut s) => loop {
+                        if d == -3 {
+                            // poll once (this starts the input tasks and moves the receiver into the
+                            // stream), then drop the stream whatever the poll returned
+                            let _ = futures::poll!(s.next());
+                            log.lock().push(json!({"e": "drop", "o": p + 1}));
+                            break;
+                        }
                         if d >= 0 && nb as i64 >= d {
                             log.lock().push(json!({"e": "drop", "o": p + 1}));
                             break;
@@ -539,6 +581,9 @@ pub fn run_case_idle(c: &Case, idle_ticks: u32) -> Outcome {
                             }
                         }
                     },
+                }
+                if status == "dropped" {
+                    drops_done.fetch_add(1, AO::SeqCst); // the stream (and its receiver) is gone by now
                 }
                 results.lock().push((p, rows, status, nb));
             }));
@@ -727,10 +772,10 @@ fn gen_case(rng: &mut StdRng, n: usize, seed: u64) -> Case {
     let (keys, splits, desc, nulls_first, nout) = match scheme.as_str() {
         "hash" => (keyset[rng.random_range(0..keyset.len())].iter().map(|s| s.to_string()).collect(), vec![], vec![], vec![], nout),
         "range" => {
-            let keys: Vec<String> = if rng.random_bool(0.5) { vec!["k1".into()] } else { vec!["k1".into(), "k3".into()] };
+            let keys: Vec<String> = [vec!["k1"], vec!["k1", "k3"], vec!["k2"], vec!["k2", "k1"]][rng.random_range(0..4)].iter().map(|s| s.to_string()).collect();
             let desc: Vec<bool> = keys.iter().map(|_| rng.random_bool(0.4)).collect();
             let nf: Vec<bool> = keys.iter().map(|_| rng.random_bool(0.5)).collect();
-            let mut sps: Vec<Vec<Option<i64>>> = (0..nout - 1).map(|_| keys.iter().map(|_| if rng.random_bool(0.1) { None } else { Some(rng.random_range(0..6i64)) }).collect()).collect();
+            let mut sps: Vec<Vec<Option<i64>>> = (0..nout - 1).map(|_| keys.iter().map(|k| if rng.random_bool(0.15) { None } else { Some(rng.random_range(0..(if k == "k2" { 5i64 } else { 6i64 }))) }).collect()).collect();
             sps.sort_by(|a, b| cmp_rows(a, b, &desc, &nf));
             sps.dedup();
             let n2 = sps.len() + 1;
@@ -775,7 +820,7 @@ fn gen_case(rng: &mut StdRng, n: usize, seed: u64) -> Case {
     }
     let drops: Vec<i64> = {
         let pattern = rng.random_range(0..4);
-        (0..nout).map(|_| match pattern { 0 | 1 => -2, 2 => if rng.random_bool(0.35) { rng.random_range(0..3) } else { -2 }, _ => if rng.random_bool(0.3) { -1 } else if rng.random_bool(0.3) { rng.random_range(0..2) } else { -2 } }).collect()
+        (0..nout).map(|_| match pattern { 0 | 1 => -2, 2 => if rng.random_bool(0.35) { rng.random_range(0..3) } else { -2 }, _ => if rng.random_bool(0.3) { -1 } else if rng.random_bool(0.3) { rng.random_range(0..2) } else if rng.random_bool(0.3) { -3 } else { -2 } }).collect()
     };
     Case {
         scheme, nout, keys, splits, desc, nulls_first, preserve_order,
@@ -788,6 +833,8 @@ fn gen_case(rng: &mut StdRng, n: usize, seed: u64) -> Case {
         threads: rng.random_range(1..=4),
         yield_seed: if rng.random_bool(0.8) { rng.random::<u64>() | 1 } else { 0 },
         force_two_files: false,
+        err_after_drops: false,
+        family: "random".into(),
         origin: format!("random seed={seed} n={n}"),
     }
 }
@@ -861,8 +908,120 @@ fn gen_forced(rng: &mut StdRng, n: usize, seed: u64) -> Case {
         threads: rng.random_range(2..=4),
         yield_seed: rng.random::<u64>() | 1,
         force_two_files: true,
+        err_after_drops: false,
+        family: "forced".into(),
         origin: format!("forced seed={seed} n={n}"),
     }
+}
+
+
+/// The combined "early drop, then input failure" scenarios enumerated by spec/proto/RepartDropErr.tla:
+/// outputs in `drops` are polled once and dropped, the failure of input `err_in` (at its first / middle /
+/// last position) is delivered only after those drops, the other outputs are read to the end.  Three
+/// inputs of different lengths (the second one ends early) so that end markers, the error and channel
+/// closure meet in every order at the live outputs.
+fn droperr_case(v: &Value, rep: usize, seed: u64) -> Case {
+    let nout = v["nout"].as_u64().unwrap() as usize;
+    let dropset: Vec<usize> = v["drop"].as_array().unwrap().iter().map(|x| x.as_u64().unwrap() as usize).collect();
+    let never: Vec<usize> = v["never"].as_array().map(|a| a.iter().map(|x| x.as_u64().unwrap() as usize).collect()).unwrap_or_default();
+    let scheme = v["scheme"].as_str().unwrap().to_string();
+    let po = v["po"].as_bool().unwrap();
+    let spill = v["spill"].as_bool().unwrap();
+    let err_in = v["err_in"].as_u64().unwrap() as usize - 1;
+    let err_pos = v["err_pos"].as_str().unwrap();
+    let rep = rep + v["id"].as_u64().unwrap_or(0) as usize; // variant selector: differs from case to case
+    let mut rng = StdRng::seed_from_u64(seed ^ (rep as u64 * 0x9E37) ^ 0xD0E);
+    let lens = [4usize, 1, 3];
+    let mut inputs = vec![];
+    for (i, &nb) in lens.iter().enumerate() {
+        let (mut s, mut seq) = (0i64, 0i64);
+        let mut part: Vec<Item> = (0..nb)
+            .map(|_| {
+                Item::Batch((0..rng.random_range(1..=3usize)).map(|_| {
+                    s += rng.random_range(0..3i64);
+                    seq += 1;
+                    Row { id: (i as i64 + 1) * 1000 + seq, k1: if rng.random_bool(0.15) { None } else { Some(rng.random_range(0..6)) },
+                          k2: if rng.random_bool(0.15) { None } else { Some(STRS[rng.random_range(0..5)].to_string()) }, k3: Some(rng.random_range(0..4)), s }
+                }).collect())
+            })
+            .collect();
+        if i == err_in {
+            let at = match err_pos { "first" => 0, "mid" => nb / 2, _ => nb };
+            part.truncate(at);
+            part.push(Item::Err);
+        }
+        inputs.push(part);
+    }
+    let (keys, splits, desc, nf): (Vec<String>, Vec<Vec<Option<i64>>>, Vec<bool>, Vec<bool>) = match scheme.as_str() {
+        "hash" => (vec!["k1".into(), "k2".into()], vec![], vec![], vec![]),
+        "range" => {
+            let mut sp: Vec<Vec<Option<i64>>> = vec![vec![Some(1)], vec![Some(3)], vec![Some(4)], vec![Some(5)]];
+            sp.truncate(nout - 1);
+            (vec!["k1".into()], sp, vec![false], vec![false])
+        }
+        _ => (vec![], vec![], vec![], vec![]),
+    };
+    Case {
+        scheme, nout, keys, splits, desc, nulls_first: nf, preserve_order: po, unbounded: false, inputs,
+        batch_size: if rep % 2 == 0 { 1 } else { 8192 },
+        mem: if spill { Some(if po { 3000 } else { 1 }) } else { None },
+        max_spill_file: if rep % 3 == 0 { Some(1) } else { None },
+        drops: (1..=nout).map(|o| if dropset.contains(&o) { -3 } else if never.contains(&o) { -1 } else { -2 }).collect(),
+        threads: 1 + rep % 4,
+        yield_seed: if rep % 5 == 4 { 0 } else { rng.random::<u64>() | 1 },
+        force_two_files: false,
+        err_after_drops: true,
+        family: "droperr".into(),
+        origin: format!("RepartDropErr case {} rep {rep} seed {seed}", v["id"]),
+    }
+}
+
+/// which code paths / configurations a run exercised (measured; the driver guards against zeros)
+fn paths_of(c: &Case, o: &Outcome, paths: &mut BTreeMap<String, usize>) {
+    let mut hit = |k: &str| *paths.entry(k.to_string()).or_default() += 1;
+    let nin = c.inputs.len();
+    let po = c.preserve_order && nin > 1;
+    let has_err = c.inputs.iter().any(|p| p.iter().any(|it| matches!(it, Item::Err)));
+    let total_rows: usize = c.inputs.iter().flatten().map(|it| if let Item::Batch(r) = it { r.len() } else { 0 }).sum();
+    hit(&format!("scheme_{}", c.scheme));
+    hit(&format!("family_{}", c.family));
+    if c.scheme == "hash" { hit(&format!("hash_{}_keys", c.keys.len())); }
+    if c.scheme == "range" {
+        if c.splits.is_empty() { hit("range_no_split_points"); }
+        if c.splits.iter().flatten().any(|x| x.is_none()) { hit("range_null_split_value"); }
+        if c.desc.iter().any(|x| *x) { hit("range_desc"); }
+        if c.nulls_first.iter().any(|x| *x) { hit("range_nulls_first"); }
+        if c.keys.iter().any(|k| k == "k2") { hit("range_string_key"); }
+        if c.keys.len() > 1 { hit("range_compound_key"); }
+        if c.inputs.iter().flatten().any(|it| if let Item::Batch(r) = it { r.iter().any(|x| key_i64(x, &c.keys[0]).is_none()) } else { false }) { hit("range_null_key_rows"); }
+    }
+    if po { hit("preserve_order"); } else { hit("not_preserve_order"); }
+    if po && c.inputs.iter().any(|p| p.iter().all(|it| matches!(it, Item::Batch(r) if r.is_empty()))) { hit("preserve_order_with_exhausted_input"); }
+    if po && o.spilled > 0 { hit("preserve_order_spilled"); }
+    if !po && o.spilled > 0 { hit("shared_pool_spilled"); }
+    if c.max_spill_file == Some(1) && o.spilled > 0 { hit("spill_file_rotation_every_batch"); }
+    if c.unbounded { hit("unbounded_no_coalescer"); }
+    if !po && !c.unbounded && c.batch_size > total_rows && total_rows > 0 { hit("coalescer_all_rows_residual"); }
+    if !po && !c.unbounded && c.batch_size == 1 { hit("coalescer_batch_size_1"); }
+    if !po && !c.unbounded && c.batch_size > 1 && c.batch_size <= 8 { hit("coalescer_small_target"); }
+    if c.inputs.iter().flatten().any(|it| matches!(it, Item::Batch(r) if r.is_empty())) { hit("empty_input_batches"); }
+    if c.inputs.iter().any(|p| p.is_empty()) { hit("input_without_batches"); }
+    if nin == 1 { hit("single_input"); }
+    if c.nout == 1 { hit("single_output"); }
+    if c.drops.iter().any(|d| *d >= 0) { hit("drop_after_k_batches"); }
+    if c.drops.iter().any(|d| *d == -3) { hit("drop_after_first_poll"); }
+    if c.drops.iter().any(|d| *d == -1) { hit("output_never_executed"); }
+    if has_err {
+        hit("input_error");
+        if c.drops.iter().any(|d| *d == -3 || *d >= 0) && c.drops.iter().any(|d| *d == -2) { hit("input_error_with_dropped_and_live_outputs"); }
+        if c.inputs.iter().any(|p| !p.iter().any(|it| matches!(it, Item::Err)) && p.len() <= 1) { hit("input_error_while_other_input_already_ended"); }
+        if c.inputs.iter().any(|p| matches!(p.first(), Some(Item::Err))) { hit("input_error_before_first_batch"); }
+        if !po && !c.unbounded && c.batch_size > total_rows { hit("input_error_with_rows_in_coalescer"); }
+        if po { hit("input_error_preserve_order"); }
+        if o.spilled > 0 { hit("input_error_with_spilled_batches"); }
+    }
+    if o.status.iter().any(|s| s == "resource") { hit("resources_exhausted_output"); }
+    if c.threads <= 1 { hit("current_thread_runtime"); } else { hit("multi_thread_runtime"); }
 }
 
 // ------------------------------------------------------------------------------------------ partitioner cases (B3)
@@ -874,13 +1033,24 @@ fn run_part_case(v: &Value) -> (Option<String>, Value) {
     let n = v["n"].as_u64().unwrap() as usize;
     let scheme = v["scheme"].as_str().unwrap();
     let expect: Vec<usize> = v["expect"].as_array().unwrap().iter().map(|x| x.as_u64().unwrap() as usize - 1).collect();
-    let rows: Vec<Row> = colv.iter().enumerate().map(|(i, k)| Row { id: i as i64, k1: *k, k2: None, k3: None, s: 0 }).collect();
+    let kc = v["kc"].as_str().unwrap_or("k1");
+    let rows: Vec<Row> = colv
+        .iter()
+        .enumerate()
+        .map(|(i, k)| if kc == "k2" { Row { id: i as i64, k1: None, k2: k.map(|x| STRS[x as usize].to_string()), k3: None, s: 0 } } else { Row { id: i as i64, k1: *k, k2: None, k3: None, s: 0 } })
+        .collect();
     let c = Case {
-        scheme: scheme.to_string(), nout: n, keys: vec!["k1".into()],
+        scheme: if scheme == "range_bad" { "range".to_string() } else { scheme.to_string() }, nout: n, keys: vec![kc.to_string()],
         splits: v["splits"].as_array().map(|a| a.iter().map(|x| vec![x.as_i64()]).collect()).unwrap_or_default(),
         desc: vec![v["desc"].as_bool().unwrap_or(false)], nulls_first: vec![v["nf"].as_bool().unwrap_or(false)],
-        preserve_order: false, unbounded: false, inputs: vec![], batch_size: 8192, mem: None, max_spill_file: None, drops: vec![], threads: 1, yield_seed: 0, force_two_files: false, origin: "tlc".into(),
+        preserve_order: false, unbounded: false, inputs: vec![], batch_size: 8192, mem: None, max_spill_file: None, drops: vec![], threads: 1, yield_seed: 0, force_two_files: false, err_after_drops: false, family: "part".into(), origin: "tlc".into(),
     };
+    if scheme == "range_bad" {
+        return match partitioning(&c) {
+            Ok(_) => (Some("split points that are not strictly increasing under the ordering were accepted by RangePartitioning::try_new".into()), json!(null)),
+            Err(_) => (None, json!({"rejected": true})),
+        };
+    }
     let part = match partitioning(&c) {
         Ok(p) => p,
         Err(e) => return (Some(format!("partitioning rejected a valid specification case: {e}")), json!(null)),
@@ -958,7 +1128,7 @@ fn run_part_case(v: &Value) -> (Option<String>, Value) {
     if scheme == "range" {
         // the range-partition expression must agree with the partitioner
         if let Partitioning::Range(rp) = &part {
-            let e = RangeExpr::try_new(vec![col("k1", &schema()).unwrap()], rp).and_then(|e| e.evaluate(&to_batch(&rows))).and_then(|cv| cv.into_array(rows.len()));
+            let e = RangeExpr::try_new(vec![col(kc, &schema()).unwrap()], rp).and_then(|e| e.evaluate(&to_batch(&rows))).and_then(|cv| cv.into_array(rows.len()));
             match e {
                 Ok(a) => {
                     let a = a.as_any().downcast_ref::<UInt64Array>().unwrap();
@@ -991,11 +1161,13 @@ pub fn main() {
     let mut samples: Vec<Value> = vec![];
     let mut part_total = 0usize;
     let mut part_distinct = HashSet::new();
+    let mut part_kinds = BTreeMap::<String, usize>::new();
     if let Some(p) = util::arg("--part-cases") {
         for v in util::read_ndjson(&p) {
             part_total += 1;
             let (viol, obs) = run_part_case(&v);
-            part_distinct.insert(format!("{}|{}|{}|{}", v["scheme"], v["n"], v["col"], v["splits"]));
+            part_distinct.insert(format!("{}|{}|{}|{}|{}|{}|{}", v["scheme"], v["kc"], v["n"], v["col"], v["splits"], v["desc"], v["nf"]));
+            *part_kinds.entry(format!("{}_{}", v["scheme"].as_str().unwrap_or(""), v["kc"].as_str().unwrap_or(""))).or_default() += 1;
             if let Some(m) = viol {
                 if violations.len() < 20 {
                     violations.push(json!({"kind": "partitioner", "case": v, "observed": obs, "oracle": m}));
@@ -1032,6 +1204,14 @@ pub fn main() {
     for n in 0..nrandom {
         cases.push(gen_case(&mut rng, n, seed));
     }
+    if let Some(p) = util::arg("--droperr-cases") {
+        let reps: usize = util::arg("--droperr-reps").and_then(|s| s.parse().ok()).unwrap_or(1);
+        for v in util::read_ndjson(&p) {
+            for r in 0..reps {
+                cases.push(droperr_case(&v, r, seed));
+            }
+        }
+    }
     let nforced: usize = util::arg("--forced").and_then(|s| s.parse().ok()).unwrap_or(0);
     let first_forced = cases.len();
     for n in 0..nforced {
@@ -1041,6 +1221,7 @@ pub fn main() {
     let (mut total, mut skipped, mut spilled_runs, mut rows_delivered, mut resource_runs, mut err_runs, mut drop_runs, mut po_runs) = (0usize, 0usize, 0usize, 0usize, 0usize, 0usize, 0usize, 0usize);
     let mut cfgs = HashSet::new();
     let mut skip_notes: Vec<Value> = vec![];
+    let mut paths = BTreeMap::<String, usize>::new();
     let mut schemes = BTreeMap::<String, usize>::new();
     // cases are independent: run them on a few OS threads (each case has its own runtime and pool)
     let next = std::sync::atomic::AtomicUsize::new(0);
@@ -1085,6 +1266,9 @@ pub fn main() {
     for (k, c) in cases.iter().enumerate() {
         let (o, v) = done[k].take().unwrap();
         total += 1;
+        if o.skipped.is_none() {
+            paths_of(c, &o, &mut paths);
+        }
         if let Some(sk) = &o.skipped {
             skipped += 1;
             if skip_notes.len() < 5 {
@@ -1142,7 +1326,7 @@ pub fn main() {
         "exec_runs": total, "exec_skipped": skipped, "exec_spilled_runs": spilled_runs, "exec_resource_exhausted_runs": resource_runs,
         "exec_input_error_runs": err_runs, "exec_early_drop_runs": drop_runs, "exec_preserve_order_runs": po_runs,
         "rows_delivered": rows_delivered, "distinct_configurations": cfgs.len(), "schemes": schemes,
-        "forced_runs": nforced, "forced_confirmed_hangs": forced_hangs, "violations": violations, "samples": samples, "skip_notes": skip_notes,
+        "paths": paths, "part_kinds": part_kinds, "forced_runs": nforced, "forced_confirmed_hangs": forced_hangs, "violations": violations, "samples": samples, "skip_notes": skip_notes,
     });
     std::fs::write(&out_path, serde_json::to_string(&res).unwrap()).unwrap();
     if let Some(p) = util::arg("--traces") {
